@@ -12,7 +12,7 @@
              preLongs 1: empty, or a single entry at 8; preLongs 2: count u32 @8, entries @16;
              preLongs 3: count u32 @8, theta u64 @16, entries @24.
    serVer 4 (compressed, ordered): byte 3 entry_bits (1..63), byte 4 num_entries_bytes (1..4),
-             byte 5 flags; preLongs 1 exact / 2 estimating (theta u64 @8); then the count in
+             byte 5 flags (ORDERED set, EMPTY clear); preLongs 1 exact / 2 estimating (theta u64 @8); then the count in
              num_entries_bytes bytes; then the deltas of the ascending entries, entry_bits bits
              each, as ONE big-endian bit stream (the first delta is the first entry).
    serVer 2: preLongs 1 empty / 2 exact / 3 estimating; count u32 @8; theta @16 (preLongs 3);
@@ -98,12 +98,15 @@ Definition dec_v3 (bs : list N) : option tabs :=
     if has (24 + 8 * cnt) bs then Some (mkAbs (hashes cnt 24 bs) (u 8 16 bs) seed ordered false) else None
   else None.
 
+(* the compressed form exists only for ordered sketches with entries: ORDERED must be set, EMPTY clear *)
 Definition dec_v4 (bs : list N) : option tabs :=
   let pre := nth 0 bs 0 in
   let w := N.to_nat (nth 3 bs 0) in
   let neb := N.to_nat (nth 4 bs 0) in
+  let flags := nth 5 bs 0 in
   let seed := u 2 6 bs in
-  if negb ((1 <=? w) && (w <=? 63))%nat then None
+  if flag flags S_EMPTY || negb (flag flags S_ORDERED) then None
+  else if negb ((1 <=? w) && (w <=? 63))%nat then None
   else if negb ((1 <=? neb) && (neb <=? 4))%nat then None
   else if negb ((pre =? 1) || (pre =? 2)) then None
   else
@@ -155,6 +158,8 @@ Inductive variant :=
 | V1                      (* serVer 1 *)
 | V2                      (* serVer 2: empty / exact / estimating by the state *)
 | V3 (single_flag : bool) (* serVer 3; Java sets SINGLE_ITEM on one-entry exact sketches *)
+| V3L (pre : N)           (* serVer 3 written with MORE preamble longs than necessary: a non-empty sketch with
+                             preLongs 2 (one entry, count field present) or 3 (exact mode, theta = 2^63-1 stored) *)
 | V4.                     (* serVer 4: ordered sketches with at least one entry *)
 
 Definition est (a : tabs) : bool := a_theta a <? S_MAX_THETA.
@@ -183,6 +188,13 @@ Definition enc_v3 (single_flag : bool) (a : tabs) : list N :=
            ++ (if pre =? 3 then le_bytes 8 (a_theta a) else [])
            ++ entry_bytes a).
 
+Definition enc_v3_long (pre : N) (a : tabs) : list N :=
+  let flags := S_READ_ONLY + S_COMPACT + (if a_ordered a then S_ORDERED else 0) in
+  [pre; 3; S_FAMILY_THETA; 0; 0; flags] ++ le_bytes 2 (a_seed_hash a)
+  ++ le_bytes 4 (cnt_of a) ++ [0; 0; 0; 0]
+  ++ (if pre =? 3 then le_bytes 8 (a_theta a) else [])
+  ++ entry_bytes a.
+
 (* the big-endian bit stream of w-bit fields *)
 Definition field_bit (w : nat) (vs : list N) (p : nat) : bool :=
   N.testbit (nth (p / w) vs 0) (N.of_nat (w - 1 - p mod w)).
@@ -209,12 +221,13 @@ Definition enc_v4 (a : tabs) : list N :=
   ++ pack_stream w ds.
 
 Definition enc_spec (v : variant) (a : tabs) : list N :=
-  match v with V1 => enc_v1 a | V2 => enc_v2 a | V3 sf => enc_v3 sf a | V4 => enc_v4 a end.
+  match v with V1 => enc_v1 a | V2 => enc_v2 a | V3 sf => enc_v3 sf a | V3L pre => enc_v3_long pre a | V4 => enc_v4 a end.
 
 (* which abstract states a variant can express *)
 Definition expressible (v : variant) (a : tabs) : bool :=
   match v with
   | V1 | V2 => a_ordered a && Bool.eqb (a_empty a) ((cnt_of a =? 0) && negb (est a))
   | V3 _ => true
+  | V3L pre => negb (a_empty a) && (((pre =? 2) && negb (est a)) || (pre =? 3))
   | V4 => a_ordered a && negb (cnt_of a =? 0) && negb (a_empty a) && (negb (cnt_of a =? 1) || est a)
   end.
